@@ -168,30 +168,32 @@ theorem c14_work_at_most_once (s : Sys) (op : Nat) (prio : Int) (req : List Nat)
   cases htail with
   | acqFail => decide
   | cp1 => decide
+  | ended => decide
   | workRaise => decide
   | cp2 => decide
   | valFail => decide
   | cp3 _ hv => rcases hv with hv | hv <;> rw [hv] <;> decide
   | commit _ hv => rcases hv with hv | hv <;> rw [hv] <;> decide
 
-/-- **The work function runs only while the operation holds all requested resources** — outside the trigger of the
-    open finding `C14-work-after-kill-in-g1-checkpoint`.  If the log contains a work event, the system as the work
-    function found it (`atWork`) exists, and in it every requested resource is registered and owned by the
-    operation, provided the callback of the G1 → S checkpoint — the one callback that runs between the last
-    acquisition and the work function — leaves the operation alone (`WorkAct.spares`: it does nothing to the system
-    or kills another operation).  Nothing is assumed of the other five callbacks: an operation killed from inside
-    its G0 checkpoint, before the acquisitions, still obtains every requested resource before it works.
+/-- **The work function runs only while the operation holds all requested resources.**  If the log contains a work
+    event, the system as the work function found it (`atWork`) exists, and in it every requested resource is
+    registered and owned by the operation — whatever the six callbacks do.  Between the last acquisition and the work
+    function runs one callback, the condition of the G1 → S checkpoint; since the repair of finding
+    `C14-work-after-kill-in-g1-checkpoint` `execute_operation` looks at the operation once more after that checkpoint
+    and runs the work function only if the operation is still listed — and an operation that is still listed after a
+    kill, a shutdown, a watchdog or a maintenance run has kept everything it owned (`applyAct_owns_listed`).  An
+    operation ended earlier, from inside its G0 checkpoint, acquires with a context nobody lists and is stopped by the
+    same test (`c14_ended_before_work_does_not_work`).
     Reading of "only while": the theorem is about the instant the work function is ENTERED.  What the work function
     does from inside (`adv.act`: killing its own operation, a shutdown, a watchdog run) releases the resources while
     it is still running — that is the work function's own doing, and the exit paths "watchdog kill, manual kill or
     shutdown" of the first sentence of the property. -/
-theorem c14_work_only_with_all_resources_partial (s : Sys) (op : Nat) (prio : Int) (req : List Nat) (adv : Adv)
-    (hspares : (adv.cpAct 1).spares op)
+theorem c14_work_only_with_all_resources (s : Sys) (op : Nat) (prio : Int) (req : List Nat) (adv : Adv)
     (ok : Bool) (hran : Ev.work ok ∈ (exec s op prio req adv).log) :
     ∃ w, (exec s op prio req adv).atWork = some w ∧ ∀ r ∈ req, Owns w op r := by
   obtain ⟨b0, acqs, t, hacq, hlog, _, hnone⟩ := exec_shape s op prio req adv
   cases haw : (exec s op prio req adv).atWork with
-  | some w => exact ⟨w, rfl, exec_atWork s op prio req adv w hspares haw⟩
+  | some w => exact ⟨w, rfl, exec_atWork s op prio req adv w haw⟩
   | none =>
     exfalso
     rw [hlog] at hran
@@ -199,43 +201,49 @@ theorem c14_work_only_with_all_resources_partial (s : Sys) (op : Nat) (prio : In
     rcases hran with h | h | h
     · cases h
     · obtain ⟨r, res, he⟩ := hacq _ h; cases he
-    · rcases hnone haw with ht | ht <;> rw [ht] at h <;> simp at h
+    · rcases hnone haw with ht | ht | ht <;> rw [ht] at h <;> simp at h
 
--- FULL (false on current tree): theorem c14_work_only_with_all_resources (s op prio req adv) (ok : Bool)
---     (hran : Ev.work ok ∈ (exec s op prio req adv).log) :
---     ∃ w, (exec s op prio req adv).atWork = some w ∧ ∀ r ∈ req, Owns w op r
+/-- … and the work function finds its own operation listed as active: an operation that has been ended on the way
+    (in its G0 or its G1 → S checkpoint callback) does not work at all -/
+theorem c14_work_only_while_listed (s : Sys) (op : Nat) (prio : Int) (req : List Nat) (adv : Adv) (w : Sys)
+    (h : (exec s op prio req adv).atWork = some w) : ∃ c ∈ w.active, c.id = op := by
+  unfold exec at h
+  simp only at h
+  split at h
+  · split at h
+    · split at h
+      · rename_i hl
+        rw [execWork_atWork] at h
+        cases h
+        exact listed_of_ctx? hl
+      · simp [failWith] at h
+    · simp [failWith] at h
+  · simp [failWith] at h
 
 private def advKillInG1 : Adv :=
   { cp := fun _ => .base, act := .none, workOk := true, val := .yes,
     cpAct := fun i => if i = 1 then .kill 1 else .none }
 
-/-- **Open finding: the work function runs after the operation was ended from inside its G1 → S checkpoint.**
-    `execute_operation` does not look at the operation again between `advance` and `work_fn()`: when the condition
-    of the G1 → S checkpoint ends the operation (manual kill here; a shutdown or a watchdog run do the same) and
-    then answers True, everything the operation had acquired has been released, and the work function still runs —
-    holding nothing.  Concretely: r1 registered, `execute_operation(op1, resources=[r1])`, the G1 checkpoint
-    condition calls `kill_operation(op1)`: the log shows the completed work, the call reports success, and in the
-    system the work function found r1 is free. -/
-theorem c14_work_after_kill_in_g1_checkpoint_witness :
-    ∃ (s : Sys) (op : Nat) (prio : Int) (req : List Nat) (adv : Adv),
-      (∀ r, ¬ Owns s op r) ∧ Ev.work true ∈ (exec s op prio req adv).log ∧ (exec s op prio req adv).success = true ∧
-      (exec s op prio req adv).atWork.isSome = true ∧
-      ∀ w, (exec s op prio req adv).atWork = some w → ∃ r ∈ req, ¬ Owns w op r := by
-  refine ⟨({} : Sys).register 1 false, 1, 3, [1], advKillInG1, ?_, by decide, by decide, by decide, ?_⟩
-  · rintro r ⟨l, hl, ho⟩
-    simp only [Sys.register] at hl
-    split at hl
-    · cases hl; cases ho
-    · cases hl
-  · intro w hw
-    refine ⟨1, by simp, ?_⟩
-    rintro ⟨l, hl, ho⟩
-    have h : ((exec (({} : Sys).register 1 false) 1 3 [1] advKillInG1).atWork.bind (·.locks 1)).map (·.owner) = some none := by
-      decide
-    rw [hw] at h
-    simp only [Option.bind_some, hl, Option.map_some, Option.some.injEq] at h
-    rw [h] at ho
-    cases ho
+private def advKillInG0 : Adv :=
+  { cp := fun _ => .base, act := .none, workOk := true, val := .yes,
+    cpAct := fun i => if i = 0 then .kill 1 else .none }
+
+/-- **Former finding `C14-work-after-kill-in-g1-checkpoint`, repaired**: r1 registered,
+    `execute_operation(op1, resources=[r1])`, the condition of the G1 → S checkpoint calls `kill_operation(op1)` and
+    answers True.  Before the repair the work function ran holding nothing and the call reported success; now the log
+    ends `cp1:1, abort` — no work event, no success, r1 free, nobody active.  The same for a kill from inside the G0
+    checkpoint (the operation then acquires r1 with a context nobody lists, is stopped before the work function and
+    gives r1 back). -/
+theorem c14_ended_before_work_does_not_work :
+    let s := ({} : Sys).register 1 false
+    (exec s 1 3 [1] advKillInG1).log = [.cp 0 true, .acq 1 (some .acquired), .cp 1 true, .abort] ∧
+    (exec s 1 3 [1] advKillInG1).success = false ∧ (exec s 1 3 [1] advKillInG1).atWork.isNone = true ∧
+    ((exec s 1 3 [1] advKillInG1).sys.locks 1).map (·.owner) = some none ∧
+    (exec s 1 3 [1] advKillInG0).log = [.cp 0 true, .acq 1 (some .acquired), .cp 1 true, .abort] ∧
+    (exec s 1 3 [1] advKillInG0).success = false ∧
+    ((exec s 1 3 [1] advKillInG0).sys.locks 1).map (·.owner) = some none ∧
+    (exec s 1 3 [1] advKillInG0).sys.active = [] := by
+  decide
 
 /-- **Validation runs only after work completed.**  Wherever a validation event stands in the log, a work event
     that returned (did not raise) stands before it. -/
@@ -251,6 +259,7 @@ theorem c14_validate_only_after_work (s : Sys) (op : Nat) (prio : Int) (req : Li
     cases htail with
     | acqFail => rfl
     | cp1 => rfl
+    | ended => rfl
     | workRaise => rfl
     | cp2 => rfl
     | valFail => rfl
@@ -722,17 +731,22 @@ example : (exec s0 1 3 [1, 2, 1] { advOk with act := .kill 1, workOk := false })
     (exec s0 1 3 [1, 2, 1] { advOk with act := .kill 1, workOk := false }).sys.active = [] := by decide
 
 /-- ended from inside its own G0 checkpoint condition, before anything is acquired (the operation is then no
-    longer listed): it still acquires r1 and r2, works holding both, commits — and both are free afterwards; the same
-    with a validator that says no, and with a shutdown fired from inside `validate_fn` -/
+    longer listed): it still acquires r1 and r2 with a context nobody lists, is stopped before the work function (no
+    work, failure) and both are free afterwards; ended from inside the S → G2 checkpoint condition, after the work: it
+    goes on unlisted, is validated, commits — and both are free afterwards; the same with a validator that says no,
+    and with a shutdown fired from inside `validate_fn` -/
 example :
-    (exec s0 1 3 [1, 2] { advOk with cpAct := fun i => if i = 0 then .kill 1 else .none }).success = true ∧
-    ((exec s0 1 3 [1, 2] { advOk with cpAct := fun i => if i = 0 then .kill 1 else .none }).atWork.map
-      (fun w => (w.ctx? 1).isNone && (w.locks 1).map (·.owner) == some (some 1) && (w.locks 2).map (·.owner) == some (some 1)))
-      = some true ∧
+    (exec s0 1 3 [1, 2] { advOk with cpAct := fun i => if i = 0 then .kill 1 else .none }).success = false ∧
+    (exec s0 1 3 [1, 2] { advOk with cpAct := fun i => if i = 0 then .kill 1 else .none }).atWork.isNone = true ∧
     ((exec s0 1 3 [1, 2] { advOk with cpAct := fun i => if i = 0 then .kill 1 else .none }).sys.locks 1).map (·.owner) = some none ∧
     ((exec s0 1 3 [1, 2] { advOk with cpAct := fun i => if i = 0 then .kill 1 else .none }).sys.locks 2).map (·.owner) = some none ∧
-    (exec s0 1 3 [1, 2] { advOk with val := .no, cpAct := fun i => if i = 0 then .kill 1 else .none }).success = false ∧
-    ((exec s0 1 3 [1, 2] { advOk with val := .no, cpAct := fun i => if i = 0 then .kill 1 else .none }).sys.locks 2).map (·.owner)
+    (exec s0 1 3 [1, 2] { advOk with cpAct := fun i => if i = 2 then .kill 1 else .none }).success = true ∧
+    ((exec s0 1 3 [1, 2] { advOk with cpAct := fun i => if i = 2 then .kill 1 else .none }).atWork.map
+      (fun w => (w.ctx? 1).isSome && (w.locks 1).map (·.owner) == some (some 1) && (w.locks 2).map (·.owner) == some (some 1)))
+      = some true ∧
+    ((exec s0 1 3 [1, 2] { advOk with cpAct := fun i => if i = 2 then .kill 1 else .none }).sys.locks 2).map (·.owner) = some none ∧
+    (exec s0 1 3 [1, 2] { advOk with val := .no, cpAct := fun i => if i = 2 then .kill 1 else .none }).success = false ∧
+    ((exec s0 1 3 [1, 2] { advOk with val := .no, cpAct := fun i => if i = 2 then .kill 1 else .none }).sys.locks 2).map (·.owner)
       = some none ∧
     ((exec s0 1 3 [1, 2] { advOk with valAct := .shutdown }).sys.locks 1).map (·.owner) = some none := by decide
 
